@@ -15,6 +15,12 @@ func (p *Pool) Stop() {
 	}
 
 	p.cancel()
+
+	// Senders that saw the live context leave on the cancellation; none can enter
+	// once the barrier has been passed.
+	p.lifeM.Lock()
+	p.lifeM.Unlock() //nolint:staticcheck // empty critical section: a barrier
+
 	p.sendWg.Wait()
 	p.runWg.Wait()
 
